@@ -87,8 +87,9 @@ def run(ctx, rep):
     for prim in ('emit_opcode', 'emit_u8', 'emit_u16', 'change_jump_operand_at', 'remove_last_instruction'):
         for f, b, t in F.callers_of(lambda p: p == 'compiler::Compiler::' + prim):
             inl = f.blocks[b].get('inl')
-            m = (inl[-1] if inl else f.path).split('::')[-1]      # a spliced-in helper is where the call is written
-            rep.ob(f.path.startswith('compiler::Compiler::') and m in R['sites'], 'R02.2', f.path, 'calls ' + prim,
+            import re as _re2
+            m = _re2.sub(r'(::\{closure#\d+\})+$', '', (inl[-1] if inl else f.path)).split('::')[-1]      # a spliced-in helper (or the method a closure is written in) is where the call is written
+            rep.ob(f.path.startswith('compiler::Compiler::') and m in R['sites'], 'R02.2', _re2.sub(r'(::\{closure#\d+\})+$', '', f.path), 'calls ' + prim,
                    'code-buffer primitive called from a function CSA analyses', span_loc(t['span']))
     rep.count('emit_sites', total)
 
